@@ -1401,7 +1401,7 @@ def _g_igmp3(r, hostile):
   n = r.randint(0, 5)
   for _ in range(n):
     ns = r.pick([0, 0, 1, 2, 3, 40])
-    aux = r.pick([0, 0, 0, 1, 2, 5])
+    aux = r.pick([0, 0, 0, 1, 2, 5, 63, 64, 100, 255])
     cnt = ns
     if hostile and r.chance(0.3):
       cnt = r.pick([ns + 1, 0xffff])
@@ -1417,10 +1417,9 @@ def _g_igmp3(r, hostile):
             + r.randbytes(4 * ns))
     m = _igmp(0x11, r.randrange(256), body)
   else:
-    m = _igmp(0x22, 0, struct.pack("!HH", 0, cnt) + recs)
+    m = _igmp(0x22, 0, struct.pack("!HH", 0, cnt) + recs[:1400])
   opts = bytes([0x94, 4, 0, 0]) if r.chance(0.6) else b""
-  return F.eth(M2, M1, F.ETH_IP, _ip4(2, m[:1200], dst=MC4, ttl=1,
-                                      options=opts))
+  return F.eth(M2, M1, F.ETH_IP, _ip4(2, m, dst=MC4, ttl=1, options=opts))
 
 
 def _g_ip6ext(r, hostile):
